@@ -58,6 +58,9 @@ func (g *gen) Add(name string, typs []types.Type) (string, error) {
 	if !ok {
 		return "", fmt.Errorf("%s, the second argument, %s, is not of type function", name, g.TypeString(typs[0]))
 	}
+	if sig.Variadic() {
+		return "", fmt.Errorf("%s, the first argument, %s, is a variadic function, which is not supported", name, g.TypeString(typs[0]))
+	}
 	params := sig.Params()
 	if params.Len() != 1 {
 		return "", fmt.Errorf("%s, the second argument is a function, but wanted a function with one argument", name)
